@@ -117,6 +117,11 @@ func (vc *VC) heapArr(s *State, name string, sort *Sort) *Term {
 	vc.heap0[key] = t
 	vc.heapSorts[name] = sort
 	s.heap[name] = t
+	if a := vc.epochAlloc[s.epoch]; a != nil {
+		if f := vc.rootFact(name, t, a); f != True {
+			vc.bgFacts = append(vc.bgFacts, f)
+		}
+	}
 	return t
 }
 
